@@ -2,6 +2,7 @@ package store
 
 import (
 	"context"
+	"strconv"
 
 	sym "github.com/streamingfast/substreams/zz_verifsym"
 )
@@ -76,7 +77,18 @@ func VerifC02Squash() {
 		if !fa || !fb {
 			continue
 		}
-		if vIsNumeric(p) {
+		if vIsFloat(p) {
+			fa2, ea := strconv.ParseFloat(string(va), 64)
+			fb2, eb := strconv.ParseFloat(string(vb), 64)
+			sym.Assert(ea == nil && eb == nil, "float-values-parse")
+			if ea == nil && eb == nil {
+				if p == vPolAddFloat64 || p == vPolSetSumFloat64 {
+					sym.Assert(fa2 == fb2, "squash-same-float-sum")
+				} else {
+					sym.Assert(fa2 == fb2, "squash-same-float-minmax")
+				}
+			}
+		} else if vIsNumeric(p) {
 			na, ea := parseI64(va)
 			nb, eb := parseI64(vb)
 			sym.Assert(ea == nil, "sequential-value-parses")
